@@ -1136,7 +1136,23 @@ fn answer_inner(line: &str) -> String {
                 },
                 Err(_) => "nostr".to_string(),
             };
-            format!("{} | {} | {}", r1, r2, r3)
+            // the same text through `Deserialize::deserialize_in_place` into a slot that already holds a value (with variants),
+            // and as the one element of an array deserialised in place into a Vec that already holds two values
+            use serde::Deserialize;
+            let mut place: LanguageIdentifier = "ca-ES-valencia".parse().unwrap();
+            let r4 = match LanguageIdentifier::deserialize_in_place(&mut serde_json::Deserializer::from_str(s), &mut place) {
+                Ok(()) => format!("ok {}", render_li(&place)),
+                Err(_) => "err".to_string(),
+            };
+            let mut places: Vec<LanguageIdentifier> = vec!["sl-rozaj-biske".parse().unwrap(), "de-1996".parse().unwrap()];
+            let arr = format!("[{}]", s);
+            let r5 = match Vec::<LanguageIdentifier>::deserialize_in_place(&mut serde_json::Deserializer::from_str(&arr), &mut places) {
+                Ok(()) if places.len() == 1 => format!("ok {}", render_li(&places[0])),
+                Ok(()) => "err".to_string(),
+                Err(_) => "err".to_string(),
+            };
+            let inplace = if r4 == r1 && (r5 == r1 || r2 == "badjson") { "same".to_string() } else { format!("{} / {}", r4, r5) };
+            format!("{} | {} | {} | {}", r1, r2, r3, inplace)
         }
         _ => "na".to_string(),
     }
